@@ -505,10 +505,32 @@ func (x *Exec) doSlice(i *ssa.Slice) {
 	base := x.val(i.X)
 	// byte array cell or []byte / string
 	if base.Loc != nil && base.Loc.Kind == LCell && base.Loc.Sort == "Str" {
-		if i.Low == nil && i.High == nil {
+		whole := i.Low == nil && i.High == nil
+		if !whole && i.Low == nil && i.High != nil {
+			// t[:N] of a [N]byte array (the shape of make([]byte, N) with constant N)
+			if c, ok := i.High.(*ssa.Const); ok {
+				if at, ok := base.Loc.Elem.Underlying().(*types.Array); ok && c.Int64() == at.Len() {
+					whole = true
+				}
+			}
+		}
+		if whole {
 			x.bind(i, tv(x.readLoc(base.Loc)))
 			return
 		}
+		// a proper sub-slice of a byte array: a value (writes through it are not modelled)
+		cell := x.readLoc(base.Loc)
+		lo, hi := "0", "(strlen "+cell+")"
+		if i.Low != nil {
+			lo = x.termOf(x.val(i.Low))
+		}
+		if i.High != nil {
+			hi = x.termOf(x.val(i.High))
+		}
+		x.needDecl("substr", "(declare-fun substr (Str Int Int) Str)")
+		x.markA("sub-slice of a byte array treated as a value")
+		x.bind(i, tv("(substr "+cell+" "+lo+" "+hi+")"))
+		return
 	}
 	bt := x.termOf(base)
 	if x.smt.sortOf(i.X.Type()) == "Str" {
